@@ -127,7 +127,8 @@ PLAN = {
                           "not proved (finite tree without symlink cycles assumed); file reads: readinto short only at EOF; SHA-1 "
                           "uninterpreted; L3 (unique prefix of given length): lemmas/Lemmas.lean L3_unique_prefix, compiled on every run; its application to the relational stream postconditions is a hand step",
             "modulo_bounded": ["order / uniqueness of the listing", "MetaFile.__init__ -> assemble wiring of piece_length (C12 contract)"],
-            "trusted": ["io.BufferedReader.readinto on regular files", "no concurrent modification while hashing"]},
+            "trusted": ["io.BufferedReader.readinto on regular files", "no concurrent modification while hashing",
+                        "L3: a stream has a unique prefix of a given length -- takes the relational stream postconditions to the slicing form of BEP 3; the application is a hand step"]},
     "C15": {"functions": [], "harness": True,
             "level_text": "proved from source: with alignment the pieces are v1_pieces of the declared stream in which every file is followed by zero "
                           "bytes up to the next piece boundary (Hasher align branch + assemble), each padding entry's length is the gap "
@@ -135,7 +136,7 @@ PLAN = {
             "level_note": "gap(n, pl) axiomatised by its defining equation (-n) mod pl and the three lemma instances used; padding entry marking (attr 'p', "
                           "path) bounded by the harness",
             "modulo_bounded": ["order / uniqueness of the listing"],
-            "trusted": ["as C01"]},
+            "trusted": ["as C01", "L3: a stream has a unique prefix of a given length (hand application, as C01)"]},
     "C02": {"functions": [], "harness": True,
             "level_text": "proved from source, for every finite directory tree, file size and piece length: next_power_2, merkle_root (= BEP 52 "
                           "layer-wise root, pairing idiom); the three v2 hashers (FileHasher.__next__/_pad_remaining/_calculate_root per call; "
